@@ -180,10 +180,20 @@ def brief(name):
 DEEP_STACK = 40000
 
 
-def serve(root_spelling, root, name, head, cwd=CWD, tag="", tree=None):
+def serve(root_spelling, root, name, head, cwd=CWD, tag="", tree=None, cwd_gone=False):
     """one call of static_file with working directory `cwd`, on a fresh file system recorder; `root` is the place
     that root_spelling names from that working directory"""
     fs = FS.fs = stubs_c16.FakeFS(TREE if tree is None else tree, cwd)
+    if cwd_gone:
+        # the working directory of the process has been removed: a relative root cannot be resolved (getcwd fails).  Whatever
+        # static_file does then (it raises: the application answers 500), it opens nothing outside the root
+        fs.cwd_gone = True
+        ombott.request.__init__({"REQUEST_METHOD": "GET"})
+        try:
+            static_stream.static_file(name, root_spelling)
+        except OSError:
+            cover("cwd-fault")
+        return check_calls(fs, root)
     ombott.request.__init__({"REQUEST_METHOD": "HEAD" if head else "GET"})
     limit = sys.getrecursionlimit()
     if is_tracing():
@@ -280,6 +290,28 @@ def make_twice(root_spelling, first, second, nmin, nmax):
         bad = serve(root_spelling, second[1], name, head, second[0])
         if bad:
             return "second call (cwd %s after a call with cwd %s): %s" % (second[0], first[0], bad)
+        return None
+    return q
+
+
+def make_faulted(before, spelling, root, nmin, nmax):
+    """A fault at a particular point: one call with another root (before = (spelling, location), name 's'), then a call
+    with the relative root `spelling` while the working directory is gone (os.getcwd raises), then every name with the
+    same relative root and the working directory back.  Every path performs the same calls in the same order."""
+    def q(name: str, head: bool):
+        assume(nmin <= len(name) <= nmax)
+        new_process()
+        if before is not None:
+            bad = serve(before[0], before[1], "s", False, CWD, "first-")
+            if bad:
+                return "first call (root %s, name 's'): %s" % (before[0], bad)
+        bad = serve(spelling, root, "f", False, CWD, cwd_gone=True)
+        if bad:
+            return "call with the working directory gone: %s" % bad
+        bad = serve(spelling, root, name, head)
+        if bad:
+            return "root %r asked again after a call that failed while the working directory was gone%s: %s" % (
+                spelling, " (before that: root %s)" % before[0] if before else "", bad)
         return None
     return q
 
@@ -614,6 +646,16 @@ def build(tier):
                 out.append(Q(qid, make_twice(spelling, first, second, lo, hi), bound, timeout=timeout,
                              expect_cover=ALL_COVER + ["first-served-open"], family="twice",
                              config={"root": spelling, "cwd": [first[0], second[0]]}))
+    # a fault while a relative root is resolved (working directory removed), then the same root again (since seed C16-k)
+    for tag, before in ([("after-upper", ("/d", ("d",))), ("first", None)] if not T else
+                        [("after-upper", ("/d", ("d",))), ("first", None), ("after-other", ("/r", ("r",)))]):
+        for lo, hi, split, timeout in SLICES[:3 if T else 1]:
+            span = "len%d" % hi if lo == hi else "len%d-%d" % (lo, hi)
+            out.append(Q("faulted/%s/%s" % (tag, span), make_faulted(before, "r", ("d", "r"), lo, hi),
+                         "%sroot 'r' asked for 'f' while os.getcwd() raises (working directory removed), then root 'r' (= /d/r, "
+                         "cwd %s) asked for every name of %d..%d characters (any code points), GET and HEAD"
+                         % ("root %r serves 's', then " % before[0] if before else "", CWD, lo, hi), timeout=timeout,
+                         expect_cover=ALL_COVER + ["cwd-fault"], family="faulted", config={"before": before and before[0]}))
     # an enclosing and a nested root in one process: (tag, outer, files of outer beside inner, inner, a file of inner)
     pairs = [("upper-abs", ("/d", ("d",)), ["s", "rx", "r2/s"], ("/d/r", ("d", "r")), ["f"])]
     if T:
